@@ -69,7 +69,7 @@ def eval_doc(args):
 
 def eval_limits(args):
     lazy, md, me, depth, n = args
-    import xmlschema, xmlschema._limits as L
+    import xmlschema, xmlschema.limits as L    # the public module: assignments go through its setter to the values the loaders read
     from xmlschema.exceptions import XMLResourceExceeded
     # a chain of `depth` elements, the deepest one with n - depth extra leaf children (depth + 1 levels if there are leaves)
     leaves = n - depth
@@ -176,7 +176,7 @@ def run(tier, seed, open_findings):
         for md in (2, 5, 40):
             for dpt in (md - 1, md, md + 1):
                 if dpt >= 1: ljobs.append((lazy, md, 10 ** 6, dpt, dpt))
-        for me in (1, 7, 50):
+        for me in (1, 7, 50, 3000):
             for cnt in (me - 1, me, me + 1):
                 if cnt >= 1: ljobs.append((lazy, 1000, me, 1, cnt))
     lres = [eval_limits(j) for j in ljobs]
